@@ -191,6 +191,7 @@ func (x *Exec) step(st *State, fr *Frame, b *ssa.BasicBlock, idx int, pred *ssa.
 				res[j] = x.valueOf(st, fr, r)
 			}
 			x.countPath()
+			x.retFrame = fr
 			k(st, res, false)
 			return
 		case *ssa.Panic:
